@@ -39,6 +39,8 @@ BAD_LITERALS = [
     "'\\x4'", "\"\\xG1\"", "'\\x", "'unterminated", "\"unterminated",
     "//unterminated", "//[//", "//(//", "//*//", "//a{2,1}//", "'\\",
     "0x1G", "09", "1__0", "'\\x4", "//(?P<n>a)(?P<n>b)//", "//\\//",
+    "//a{99999999999999999999}//", "//a{1,99999999999}//", "//(?<=a+)b//",
+    "//[z-a]//", "//\\1//", "//(?i//", "//a**//", "//\\p//",
 ]
 IDENTS = ["a", "b", "c", "f", "g", "x", "y", "lst", "m", "obj"]
 
